@@ -13,6 +13,7 @@ import (
 	"sort"
 	"strings"
 	"sync"
+	"sync/atomic"
 	"time"
 
 	ml "github.com/hashicorp/memberlist"
@@ -88,16 +89,17 @@ func (b *ubc) Finished()                     {}
 func (b *ubc) UniqueBroadcast()              {}
 
 type ccfg struct {
-	label    string
-	key      []byte // nil = no encryption
-	keys     [][]byte
-	proto    uint8 // 1 => encryption version 0
-	compress bool
-	udp      int
-	verifyIn bool
+	label     string
+	key       []byte // nil = no encryption
+	keys      [][]byte
+	proto     uint8 // 1 => encryption version 0
+	compress  bool
+	udp       int
+	verifyIn  bool
 	verifyOut bool
-	skipIn   bool
-	name     string
+	skipIn    bool
+	name      string
+	cidrs     []string
 }
 
 type cnode struct {
@@ -142,6 +144,13 @@ func newCnode(c ccfg) (*cnode, error) {
 	conf.GossipVerifyIncoming = c.verifyIn
 	conf.GossipVerifyOutgoing = c.verifyOut
 	conf.Logger = log.New(io.Discard, "", 0)
+	if len(c.cidrs) > 0 {
+		nets, err := ml.ParseCIDRs(c.cidrs)
+		if err != nil {
+			return nil, err
+		}
+		conf.CIDRsAllowed = nets
+	}
 	if c.key != nil {
 		kr, err := ml.NewKeyring(c.keys, c.key)
 		if err != nil {
@@ -160,7 +169,57 @@ func newCnode(c ccfg) (*cnode, error) {
 
 var fromAddr = &net.UDPAddr{IP: net.IPv4(10, 0, 0, 1), Port: 7946}
 
-// ingest feeds one packet and waits until the handoff queue has drained.
+var sentinelSeq atomic.Uint64
+
+// quiesce waits until the packet handler goroutine has finished everything queued so far:
+// once the handoff queue is empty it sends the node a user packet sealed by the node itself
+// (same label and key) carrying a unique marker, and waits for its delivery. The handler is a
+// single goroutine, so when the marker arrives every earlier message has been fully processed.
+func (n *cnode) quiesce() {
+	for i := 0; i < 4000 && ml.VerifHandoffLen(n.m) > 0; i++ {
+		time.Sleep(50 * time.Microsecond)
+	}
+	marker := []byte(fmt.Sprintf("\x00verif-sentinel-%d", sentinelSeq.Add(1)))
+	n.tr.mu.Lock()
+	keep := n.tr.sent
+	n.tr.sent = nil
+	n.tr.mu.Unlock()
+	self := &ml.Node{Name: "sentinel", Addr: []byte{10, 0, 0, 250}, Port: 1, PMax: 2}
+	_ = n.m.SendBestEffort(self, marker)
+	n.tr.mu.Lock()
+	pk := n.tr.sent
+	n.tr.sent = keep
+	n.tr.mu.Unlock()
+	delivered := false
+	if len(pk) == 1 {
+		buf := pk[0]
+		if n.cfg.skipIn {
+			if nb, _, err := ml.RemoveLabelHeaderFromPacket(buf); err == nil {
+				buf = nb
+			}
+		}
+		ml.VerifIngestPacket(n.m, buf, fromAddr, time.Now())
+		for i := 0; i < 40000 && !delivered; i++ {
+			n.del.mu.Lock()
+			for j, g := range n.del.got {
+				if bytes.Equal(g, marker) {
+					n.del.got = append(n.del.got[:j:j], n.del.got[j+1:]...)
+					delivered = true
+					break
+				}
+			}
+			n.del.mu.Unlock()
+			if !delivered {
+				time.Sleep(50 * time.Microsecond)
+			}
+		}
+	}
+	if !delivered {
+		time.Sleep(20 * time.Millisecond)
+	}
+}
+
+// ingest feeds one packet and waits until the node has fully processed it.
 func (n *cnode) ingest(buf []byte) (panicked bool) {
 	defer func() {
 		if r := recover(); r != nil {
@@ -168,11 +227,7 @@ func (n *cnode) ingest(buf []byte) (panicked bool) {
 		}
 	}()
 	ml.VerifIngestPacket(n.m, buf, fromAddr, time.Now())
-	for i := 0; i < 2000 && ml.VerifHandoffLen(n.m) > 0; i++ {
-		time.Sleep(50 * time.Microsecond)
-	}
-	// the handler may still be inside the last callback
-	time.Sleep(100 * time.Microsecond)
+	n.quiesce()
 	return false
 }
 
@@ -215,5 +270,3 @@ func labelOf(n int) string {
 	}
 	return strings.Repeat("L", n)
 }
-
-var _ = bytes.Equal
